@@ -9,6 +9,12 @@ CHECKS = {
  "C01": ("reference-model monitor: exact crossing-parity oracle over exhaustive small rings x half-lattice points x index configurations, plus random and corpus shapes, geometry and object level",
          "Every contains-point/intersects-point answer the workload produces (geometry level under no index / R-tree / quadtree, object level through Point, SimplePoint and Feature wrappers in both operand orders) is compared with exact planar membership computed in integers. Small lattices are enumerated completely; larger shapes are sampled. Held on what was observed.",
          "Trusted: internal/exact.Locate (half-open crossing rule), float exactness on the stated coordinate domain.", "6 C01"),
+ "C02": ("reference-model monitor: exact planar intersection oracle over an enumerated contact corpus and contact-biased random valid pairs, both operand orders, geometry and object level",
+         "Every intersects answer (A.Intersects(B) and B.Intersects(A), geometry level under three index configurations, object level) is compared with exact closed-set intersection computed in integers; a fixed corpus of 16 rings enumerates every segment/point/rectangle contact configuration of their lattice neighbourhood; random pairs cover all 16 kind combinations with holes.",
+         "Trusted: internal/exact.Intersects (cross-checked against an independent big.Rat implementation; symmetry asserted on every call).", "6 C02"),
+ "C03": ("reference-model monitor with decision-site tracing: exact containment oracle, leaf oracles on hooked return sites for attribution, committed snapshot of known wrong answers",
+         "Every contains answer of the workload (same corpus and random families as C02) is compared with exact containment; each call is traced through the verif hook and a wrong answer is attributed to the leaf decisions that disagree with their own oracle. Wrong answers are reported unless they are one of the listed known findings: F5/F4 (matched by a committed snapshot of 312516 enumerated corpus cases, and by decision site on random cases) or F24 (covered hole, matched by an exact predicate).",
+         "Trusted: internal/exact.Contains and the leaf oracles; the tracer hook (tag verif) only reports, it never changes results.", "6 C03"),
  "C04": ("reference-model monitor: brute-force segment search oracle + oracle-free cross-index comparison of predicates and moved shapes",
          "Every Search call is compared, as a multiset of (index, segment) callbacks, with a brute-force scan of the index-free series using the harness' own box test; early stop is checked at four stop positions; sizes cross every item-width and node-split boundary up to 70000 points; predicates and Move()d shapes are compared across index configurations.",
          "Trusted: NumSegments/SegmentAt of the index-free series (checked separately by C18); index bytes are never decoded.", "6 C04"),
